@@ -270,6 +270,7 @@ def check(prog: Program, res: Result) -> None:
     check_valid(prog, res)
     from . import _wire
     _wire.check_peak_wiring(prog, res, "C07-wire")
+    _wire.check_numeric_hygiene(prog, res, "C07-wire")
     res.assumptions.append("refinement bounds (half a patch) and 'refinement helps' are numerical and not decided")
 
 
